@@ -58,7 +58,7 @@ int run_contained(bool resumable, F child, long max_crashes = 400)
             struct itimerval tv_off{{0, 0}, {0, 0}};
             setitimer(ITIMER_VIRTUAL, &tv_off, nullptr);
             std::fflush(nullptr);
-            _exit(rc);
+            vh_exit(rc);
         }
         int st = 0;
         if (waitpid(pid, &st, 0) < 0) { return 2; }
